@@ -645,10 +645,14 @@ func (r *Runner) Run() (err error) {
 			}
 			reloadManager.clearPendingRetirement()
 			reloadManager.setPendingReloadMetadata(reloadStartedAt, reloadStartedAtMono)
+			retireNow := oldC != nil && reloadManager.currentPendingStagedHandoff() == nil
+			if retireNow {
+				reloadManager.announcePendingRetirement()
+			}
 			reloadManager.beginHandoff()
 
 			// Ready to close.
-			if oldC != nil && reloadManager.currentPendingStagedHandoff() == nil {
+			if retireNow {
 				if oldListener != nil {
 					if err := oldListener.Close(); err != nil {
 						log.WithError(err).Warnln("[Reload] Failed to close previous listener generation")
